@@ -6,6 +6,10 @@ props = [json.loads(l) for l in open(os.path.join(ROOT, 'properties.jsonl'))]
 
 # id -> (technique, level text, level note, design ref)
 CHECKS = {
+ 'C08': ("Rules.tla: the 27 validation rules as predicates over (schema, document) on top of a typed walk written in TLA+ (FieldsInSetCanMerge / SameResponseShape, variable usage with location defaults, literal coercion with 32-bit Int range, oneOf, introspection depth); Rules_Trace evaluates them with TLC on the parsed document and loaded schema and compares the document verdict with validator.Validate; three-way agreement with generator intent",
+         "Per run: 3 (quick) / 30 (thorough) generated schemas x (40/150 valid-by-construction documents, 120/500 documents with 1-3 injected faults from a 28-operator catalogue covering every rule, 40/150 type-blind documents over the schema's vocabulary) plus 180 hand-written corner cases on a fixed schema. The verdict (errors / no errors) must equal Rules.tla's; per-rule agreement is recorded as a diagnostic.",
+         "Trusts Rules.tla as the reading of section 5; the document / schema given to the specification are projections of the real parser's / loader's output (C05, C07); verdict only, not wording.", "4/C08"),
+
  'C07': ("TypeSystem.tla (merge of definitions and extensions, 12 named rules as predicates over the set of definitions, relations, roots) evaluated by TypeSystem_Trace on the projection of the real parser's output; real gqlparser.LoadSchema verdict, relations and closure compared; three-way agreement with generator intent",
          "Generated valid-by-construction type systems (interfaces implementing interfaces, unions, oneOf inputs, repeatable directives, defaults, custom scalars, nested list/non-null, directives on every type-system location, extensions and extension-only types, custom roots) must load and yield exactly the specification's types, directives, possible-type / implements relations and roots with introspection fields and no dangling reference; the same with one injected violation from a catalogue of 21 fault operators covering every enforced rule must be rejected; 60 hand-written corner cases. 300 (quick) / 6,200 (thorough) documents.",
          "Trusts TypeSystem.tla as the reading of the rules the statement lists; the abstract document is the projection of parser.ParseSchemas' output (checked by C06); bounded exhaustive enumeration of tiny universes is not built yet (generator-driven only).", "4/C07"),
